@@ -2,12 +2,56 @@ package main
 
 import (
 	"fmt"
+	"os"
+	"time"
 
-	"github.com/taurusgroup/multi-party-sig/internal/round"
 	"github.com/taurusgroup/multi-party-sig/pkg/party"
+	"github.com/taurusgroup/multi-party-sig/protocols/doerner"
+	"github.com/taurusgroup/multi-party-sig/verifharness/protos"
+	"github.com/taurusgroup/multi-party-sig/verifharness/sim"
+	"github.com/taurusgroup/multi-party-sig/verifharness/toy"
 )
 
+func must(r *protos.RunResult, err error) *protos.RunResult {
+	if err != nil {
+		fmt.Println("ERR", err)
+		os.Exit(1)
+	}
+	if !r.AllDone() {
+		fmt.Println("NOT DONE", r.Describe())
+		os.Exit(1)
+	}
+	return r
+}
+
 func main() {
-	var n round.Number = 3
-	fmt.Println(n, party.ID("a"))
+	ids := []party.ID{"a", "b", "c"}
+	if err := protos.InstallPrimeSource("/verif/fixtures/safeprimes.json"); err != nil {
+		panic(err)
+	}
+	t0 := time.Now()
+	sh, _ := toy.ParseShape("b,bm,m")
+	r := must(protos.Run(protos.Toy(ids, sh, nil), protos.RunOpts{Seed: "s", Sched: sim.NewRng(1), Log: true}))
+	fmt.Println("toy", time.Since(t0), r.Delivered, len(r.Engine.Events))
+	t0 = time.Now()
+	r = must(protos.Run(protos.Xor(ids, nil), protos.RunOpts{Seed: "s", Sched: sim.NewRng(1)}))
+	fmt.Println("xor", time.Since(t0))
+	t0 = time.Now()
+	r = must(protos.Run(protos.FrostKeygen(ids, 1, false, nil), protos.RunOpts{Seed: "s", Sched: sim.NewRng(1)}))
+	fmt.Println("frost-keygen", time.Since(t0))
+	t0 = time.Now()
+	r2 := must(protos.Run(protos.FrostSign(r.Results, []party.ID{"a", "c"}, []byte("hello"), nil), protos.RunOpts{Seed: "s", Sched: sim.NewRng(1)}))
+	fmt.Println("frost-sign", time.Since(t0), r2.Results["a"])
+	t0 = time.Now()
+	rd := must(protos.Run(protos.DoernerKeygen("a", "b", []byte("x")), protos.RunOpts{Seed: "s", Sched: sim.NewRng(1)}))
+	fmt.Println("doerner-keygen", time.Since(t0))
+	t0 = time.Now()
+	rs := must(protos.Run(protos.DoernerSign("a", "b", rd.Results["a"].(*doerner.ConfigReceiver), rd.Results["b"].(*doerner.ConfigSender), []byte("hello"), []byte("x")), protos.RunOpts{Seed: "s", Sched: sim.NewRng(1)}))
+	fmt.Println("doerner-sign", time.Since(t0), rs.Results)
+	t0 = time.Now()
+	rc := must(protos.Run(protos.CmpKeygen(ids, 1, nil), protos.RunOpts{Seed: "s", Sched: sim.NewRng(1)}))
+	fmt.Println("cmp-keygen", time.Since(t0))
+	t0 = time.Now()
+	rcs := must(protos.Run(protos.CmpSign(rc.Results, []party.ID{"a", "c"}, []byte("hello"), nil), protos.RunOpts{Seed: "s", Sched: sim.NewRng(1)}))
+	fmt.Println("cmp-sign", time.Since(t0), rcs.Results["a"])
 }
